@@ -215,16 +215,27 @@ func SharedState(repo string) (names []string, ok bool) {
 						return true
 					}
 				}
+				follow := false
 				if sel, ok := p.Fun.(*ast.SelectorExpr); ok {
 					if x, ok := sel.X.(*ast.Ident); ok {
 						if pn, ok := info.Uses[x].(*types.PkgName); ok && pureStd[pn.Imported().Path()] {
 							if tv, ok := info.Types[p]; ok && basic(tv.Type) {
 								return true
 							}
+							// The functions of bytes/strings/unicode never write to their arguments, and
+							// a result that is not a fresh value is a piece of the FIRST argument only
+							// (Trim*, Fields, Split, Cut ...): a separator / prefix / suffix / cutset
+							// argument is only read; the first argument is followed into the result.
+							if len(p.Args) > 0 && p.Args[0] != node {
+								return true
+							}
+							follow = true
 						}
 					}
 				}
-				return flat(typeOf(node), 0)
+				if !follow {
+					return flat(typeOf(node), 0)
+				}
 			case *ast.RangeStmt:
 				if p.X == node {
 					return elemFlat(typeOf(node))
